@@ -15,7 +15,8 @@ UP4_TRUSTED = [
     "semantics, fault injection on the k-th Write, PacketOut capture stamped with the number of Writes received)",
     "tools/props/c14up4.py + tools/props/c04.py (Gen04): UP4 envelope of the generated histories and the control plane's view of the old tunnel",
 ]
-UP4_RULE = ("; UP4 leg: 6 scenarios (handover with 0/1/2 QERs, with application filter, two PDR pairs, new TEID on the same gNB, second handover) "
+UP4_RULE = ("; UP4 leg: 10 scenarios (handover with 0/1/2 QERs, with application filter, two PDR pairs, new TEID on the same gNB, second handover, and four "
+            "with the P4Runtime channel lost and re-established - at once / by the next request / twice / before a new session - between two flagged updates) "
             "fault-free with end markers enabled and disabled, then the flagged modification once per (Write position k, 8 answers of the switch: "
             "gRPC UNAVAILABLE, UNKNOWN without details, p4.Error lists [NOT_FOUND..], [OK,NOT_FOUND..], [NOT_FOUND,OK..], [ALREADY_EXISTS,NOT_FOUND..], "
             "[OK,RESOURCE_EXHAUSTED..], [OK,ALREADY_EXISTS,NOT_FOUND..]); random UP4 histories (flag values 0/1/2/3/6/absent, new TEID / handover, several "
